@@ -110,6 +110,29 @@ def gen_solvef(tier, rng):
     cs = f.gen(tier, random.Random(rng.random()))
     return cs[: (300 if tier == "quick" else 20000)]
 
+def gen_float_order(tier, rng):
+    """float models whose fixpoint depends on the ORDER in which the dependants of one prune call are woken: an equality that
+    fixes two variables at once (x + y = max_x + max_y) and two rows z >= x + a, z >= y + b posted before it, with a and b less
+    than a step apart on either side of a grid point: whichever row runs first sets z.min, the other one's change is inside
+    the setters' half-step tolerance.  The result must still be the same in every process (seeded change C16c drained the
+    changed variables through a HashSet and was only seen by the inventory scan)."""
+    from ..fmodel import hq
+    from fractions import Fraction
+    cases = []
+    for _ in range(150 if tier == "quick" else 3000):
+        prec = rng.choice([3, 4, 6, 6])
+        step = Fraction(1, 10 ** prec)
+        hx, hy = rng.randint(3, 12), rng.randint(3, 12)
+        c = Fraction(rng.randint(1, 30), 10)
+        eps = step * Fraction(rng.choice([30, 35, 40, 45]), 100)
+        a, b = (c - eps, c + eps) if rng.random() < 0.5 else (c + eps, c - eps)
+        rows = ["lin le 3ff0000000000000,bff0000000000000 x0,x2 %s" % hq(-a), "lin le 3ff0000000000000,bff0000000000000 x1,x2 %s" % hq(-b)]
+        if rng.random() < 0.5: rows.reverse()
+        eq = "lin eq 3ff0000000000000,3ff0000000000000 x0,x1 %s" % hq(Fraction(hx + hy))
+        decl = "F %s %s|F %s %s|F %s %s" % (hq(0), hq(hx), hq(0), hq(hy), hq(2), hq(100))
+        cases.append(" ; ".join([str(prec), decl] + rows + [eq, "solve", "to 2000"]))
+    return cases
+
 def gen_limits(tier, rng):
     from . import c15
     return c15.gen("quick", rng)[: (1500 if tier == "quick" else 3000)]
@@ -131,6 +154,7 @@ FAMILIES = [
     mk_family("two_process_float_propagation", "propf", gen_propf, None, split=split_noccorr),
     mk_family("two_process_float_search", "searchf", gen_searchf, None, split=split_noccorr),
     mk_family("two_process_float_solve", "solvef", gen_solvef, None, split=split_noccorr),
+    mk_family("two_process_float_order_sensitive", "solvef", gen_float_order, None, split=split_noccorr),
 ]
 # known classes of the borrowed families do not concern determinism: a case inside one still has to be
 # identical across processes and equal to the model
